@@ -155,7 +155,7 @@ Lemma first_name_off_app : forall a b lb p base,
 Proof.
   induction a as [|o a IH]; intros b lb p base.
   - cbn. rewrite Nat.add_0_r. reflexivity.
-  - destruct o as [|gc si ol oc nm]; cbn [app first_name_off emit].
+  - destruct o as [|gc si ol oc nm|gc]; cbn [app first_name_off emit].
     + rewrite IH. destruct (first_name_off a SEMI _ (S base)); [reflexivity|].
       destruct (emit a SEMI _) as [[ba lba] sa]. cbn [length].
       replace (S base + length ba)%nat with (base + S (length ba))%nat by lia. reflexivity.
@@ -165,6 +165,10 @@ Proof.
       rewrite IH. destruct (first_name_off a _ prev' _); [reflexivity|].
       destruct (emit a (last seg lb) prev') as [[ba lba] sa]. rewrite app_length.
       replace (base + length seg + length ba)%nat with (base + (length seg + length ba))%nat by lia. reflexivity.
+    + rewrite IH. destruct (first_name_off a _ (null_state p gc) _); [reflexivity|].
+      destruct (emit a _ (null_state p gc)) as [[ba lba] sa]. rewrite app_length.
+      replace (base + length (null_seg lb p gc) + length ba)%nat with (base + (length (null_seg lb p gc) + length ba))%nat by lia.
+      reflexivity.
 Qed.
 
 Definition set_last (w : sw) (ol oc : Z) : sw :=
